@@ -41,6 +41,28 @@ add("C02",
     TRUST + "Not modelled: numpy float arithmetic (tolerance 1e-9), domain equalisation (C19).",
     "Coq proof over Q (linearity by induction over sources) + vm_compute correspondence", "DESIGN.md §5 C02")
 
+add("C05",
+    "Theorems for ALL n and ALL batch sizes >= 1 (induction / div-mod arithmetic): the batches partition rows 0..n-1 in order, each row solved exactly once, "
+    "bs slots per batch with only the last padded, ceil(n/bs) solves, scatter writes each slot back to the row it was built from; slot s of what is handed to the "
+    "solver is that row's data only, padded slots are zero; the stacked (block-diagonal) least-squares objective is the sum of per-slot objectives, so a stacked "
+    "eps-minimiser eps-minimises every row's own problem; the max-type excitation objective is refuted to decouple (witness). Tie: hook records of EVERY solve "
+    "(index, padded, rows, stacked b_ and w_) on the exhaustive (procedure, n, batch_size) grid are compared with the Coq plan by vm_compute, and every run's predicted "
+    "captures with the batch_size=1 run.",
+    TRUST + "Solvers opaque: 'same predicted captures' asserted to 2e-3 capture units (tight CLARABEL settings) / 2e-2 (excitation, SCS). Hook faithfulness "
+    "(values copied after each solve). Separability is proved for the sum-type objective (gaussian; poisson/variance share the block structure), not for the solver itself. "
+    "Known finding D14 (excitation couples rows) is reported as KNOWN-FINDING.",
+    "Coq proof (nat/list induction, Q algebra) + exact comparison of hook records with the model plan", "DESIGN.md §5 C05")
+add("C19",
+    "Theorems over all inputs of the Gallina model of equalize_domains: grid starts/ends exactly at the overlap, is uniform, has round-half-even(overlap/step)+1 points; "
+    "overlap = [max min, min max], step = coarsest mean step (telescoping lemma); linear interpolation exact at knots, chord between neighbours, linear in values, 0 outside; "
+    "identical domains returned unchanged; rejection iff no/too narrow overlap; estimator capture with a foreign domain = capture of interpolated arrays on the grid. "
+    "Model tied to dreye.equalize_domains (2-4 domains, unsorted/non-uniform/nested/disjoint/tie cases, rank 1-3 arrays on any axis, stack/concatenate) and "
+    "ReceptorEstimator.capture(signals, domain=) by kernel-evaluated agreement.",
+    TRUST + "scipy interp1d internals opaque (agreement within 1e-9); N-D <-> rows reshaping and un-stacking done by the harness with numpy; duplicate abscissae "
+    "and one-point domains are outside the generator. Reading of 'closest step': nearest integer number of intervals (what arange_with_interval documents); the stricter "
+    "reading is refuted in Props/C19.v and not alarmed on.",
+    "Coq proof over Q/Z (lists, rounding, interpolation) + vm_compute correspondence", "DESIGN.md §5 C19")
+
 NOT_APPLICABLE = []
 ALL = ["C%02d" % i for i in range(1, 21)]
 
